@@ -238,6 +238,17 @@ func (g *rig) forgeOnce() *blockchain.Block {
 			g.k.Count("forge_attempts_with_validator_change", 1)
 		}
 		g.n.ABI.NextAssets = []*blockchain.BlockAsset{{Module: node.VerifModule, Data: d.Encode()}}
+		// assets of further modules, in the order the application happens to return them
+		// (registration order, not alphabetical): the generator has to put them in block order
+		if g.r.Intn(2) == 0 {
+			for _, m := range []string{"zeta", "aux", "alpha", "random"}[:1+g.r.Intn(4)] {
+				g.n.ABI.NextAssets = append(g.n.ABI.NextAssets, &blockchain.BlockAsset{Module: m, Data: []byte{byte(g.r.Intn(256))}})
+			}
+			g.r.Shuffle(len(g.n.ABI.NextAssets), func(i, j int) {
+				g.n.ABI.NextAssets[i], g.n.ABI.NextAssets[j] = g.n.ABI.NextAssets[j], g.n.ABI.NextAssets[i]
+			})
+			g.k.Count("forge_attempts_with_assets_of_several_modules", 1)
+		}
 	} else {
 		g.n.ABI.NextAssets = nil
 	}
@@ -681,7 +692,7 @@ func directed(c *mon.Ctx) {
 func main() {
 	mon.Main(mon.Options{
 		Property: "C15", Level: "exploration",
-		Rule: "(the scripted application inserts assets into generated blocks: block-level events and, sometimes, a validator-set / threshold change.) live: per shard 6 nodes (real Executer + real Generator + real pool, 2-5 validators, random subset enabled), one action per real 3 s slot: forge() (block recorded at AddInternal, checked there against the generator DB and every header the generator ever signed, then processed by the same node), hand-off dropped + generator restart, tip deletions, restarts, blocks of other validators; directed: forge up, lose blocks, forge lower, forge again; select: clock-free replay of selectTransactionsByFee over random pools/verdicts/size limits. non-trivial+distinct = (rig shape, forged count) / (senders, selected, dropped senders, limit)",
+		Rule: "(the scripted application inserts assets into generated blocks: block-level events and, sometimes, a validator-set / threshold change.) live: per shard 6 nodes (real Executer + real Generator + real pool, 2-5 validators, random subset enabled), one action per real 3 s slot: forge() (block recorded at AddInternal, checked there against the generator DB and every header the generator ever signed, then processed by the same node), hand-off dropped + generator restart, tip deletions, restarts, blocks of other validators; directed: forge up, lose blocks, forge lower, forge again; sibling-switch: the generator works on a tip whose execution installed a generator list, the tip is replaced by a sibling installing another list, every block generated afterwards must be accepted by the same node; select: clock-free replay of selectTransactionsByFee over random pools/verdicts/size limits. non-trivial+distinct = (rig shape, forged count) / (senders, selected, dropped senders, limit)",
 		Assumptions: []string{
 			"forge() reads time.Now(): verdicts use only recorded headers and DB reads; a forged block whose timestamp left the slot read at the start of the step is inconclusive (clock slip)",
 			"a contradiction that persists with the honest maxHeightGenerated (double forging in one slot after a lost hand-off, harness-made chain switch without higher maxHeightPrevoted) is attributed to the scenario, not to the generator",
@@ -695,6 +706,9 @@ func main() {
 		}
 		if only == "" || only == "directed" {
 			directed(c)
+		}
+		if only == "" || only == "sibling" {
+			siblingSwitch(c)
 		}
 		if only == "" || only == "live" {
 			live(c)
